@@ -34,7 +34,7 @@ class Contract:
 
     def __init__(self, requires=None, ensures=None, loops=None, hints=None, ret="r",
                  decreases=None, props=None, attrs=None, canary=True, opens=None,
-                 safety_props=None):
+                 safety_props=None, body_prelude=None):
         self.requires = _clauses(requires)
         self.ensures = _clauses(ensures)
         # loops: {ordinal(1-based): dict(invariant=[clauses], decreases=str, attrs=[str], ensures=[clauses])}
@@ -46,6 +46,9 @@ class Contract:
         self.props = set(props or [])
         self.attrs = attrs or []
         self.canary = canary
+        # ghost/proof text inserted right after the body's opening brace (and, per loop,
+        # loops[k]["body_prelude"] right after the loop body's opening brace)
+        self.body_prelude = body_prelude
         # properties the function's panic-freedom obligations belong to (default: props)
         self.safety_props = set(safety_props) if safety_props is not None else None
 
@@ -276,6 +279,7 @@ class UnitFile:
                         p = set(cl.props) if cl.props else props
                         self.clauses.append((oid, p, cl.text))
                         lines.append(("            " + cl.text.strip().rstrip(",") + ",", (oid, p)))
+                add("invariant_except_break", spec.get("invariant_except_break"), "inv")
                 add("invariant", spec.get("invariant"), "inv")
                 add("ensures", spec.get("ensures"), "ens")
                 if spec.get("decreases"):
@@ -285,6 +289,9 @@ class UnitFile:
                     lines.append(("            " + spec["decreases"] + ",", (oid, props)))
                 self._inserts.append(lines)
                 edits.append((toks[j].start, len(self._inserts) - 1, "brace"))
+                if spec.get("body_prelude"):
+                    self._inserts.append([("        " + x, None) for x in spec["body_prelude"].strip().split("\n")])
+                    edits.append((toks[j].end, len(self._inserts) - 1, "stmt"))
                 if spec.get("attrs"):
                     # attributes go before the loop keyword (or its label)
                     a = k
@@ -292,6 +299,9 @@ class UnitFile:
                         a = k - 2
                     self._inserts.append([("        " + x, None) for x in spec["attrs"]])
                     edits.append((toks[a].start, len(self._inserts) - 1, "stmt"))
+        if c.body_prelude:
+            self._inserts.append([("        " + x, None) for x in c.body_prelude.strip().split("\n")])
+            edits.append((toks[0].end, len(self._inserts) - 1, "stmt"))
         if max(list(c.loops.keys()) + [0]) > ordinal:
             raise ExtractError("%s: contract names loop #%d but body has %d loops"
                                % (gname, max(c.loops.keys()), ordinal))
